@@ -184,9 +184,11 @@ structure Ds where
   rows : List Row
   nfrags : Nat
   idx : Option Idx
+  /-- `LANCE_FTS_TARGET_SIZE = 0`: the merger keeps the partitions apart -/
+  split : Bool
   deriving Repr
 
-def Ds.init (cfg : Cfg) : Ds := ⟨cfg, [], 0, none⟩
+def Ds.init (cfg : Cfg) (split : Bool := false) : Ds := ⟨cfg, [], 0, none, split⟩
 
 /-- the documents a (re)build reads from the given fragments: live rows with a non-NULL text (`process_batch` skips NULLs) -/
 def docsOf (ops : CharOps) (cfg : Cfg) (rows : List Row) (sel : Nat → Bool) : List IDoc :=
@@ -221,6 +223,14 @@ def mergeAll (parts : List Part) : List Part :=
     let m := parts.foldl mergeInto Part.empty
     if m.postings.isEmpty then [] else [m]
 
+/-- `SizeBasedMerger::merge` with target size 0: every input partition is flushed on its own (`flush` skips a builder
+    without tokens); at most one input partition is copied as it is -/
+def splitAll (parts : List Part) : List Part :=
+  match parts with
+  | [] => []
+  | [p] => [p]
+  | _ => parts.filter (fun p => !p.postings.isEmpty)
+
 /-- a worker's partition; without tokens it is not written (`IndexWorker::flush` returns early) -/
 def workerParts (docs : List IDoc) : List Part :=
   let p := buildPart docs
@@ -241,8 +251,29 @@ def Ds.optimize (ops : CharOps) (ds : Ds) : Ds :=
   | some ix =>
     let newFrags := (List.range ds.nfrags).filter (fun f => ds.liveFrag f && !ix.frags.contains f)
     if newFrags.isEmpty then ds else
-    { ds with idx := some ⟨mergeAll (ix.parts ++ workerParts (docsOf ops ds.cfg ds.rows (fun f => newFrags.contains f))),
+    { ds with idx := some ⟨(if ds.split then splitAll else mergeAll)
+                             (ix.parts ++ workerParts (docsOf ops ds.cfg ds.rows (fun f => newFrags.contains f))),
                            ix.frags ++ newFrags⟩ }
+
+/-- builder.rs `InnerBuilder::remap` (`DocSet::remap`, `PostingListBuilder::remap`, `TokenSet::remap`): the documents whose row
+    was removed disappear, the doc ids of the following documents shift down, every surviving document keeps ITS positions,
+    tokens without a posting left are removed from the token set -/
+def Part.remap (p : Part) (keep : Nat → Bool) : Part :=
+  let keptDoc := fun d => (p.docs[d]?).any (fun rd => keep rd.1)
+  let newId := fun d => ((p.docs.take d).filter (fun rd => keep rd.1)).length
+  ⟨p.docs.filter (fun rd => keep rd.1),
+   (p.postings.map (fun e => (e.1, e.2.filterMap (fun o => if keptDoc o.1 then some (newId o.1, o.2) else none)))).filter
+     (fun e => !e.2.isEmpty)⟩
+
+/-- `compact_files` with `materialize_deletions` (threshold 0) + index remap: every fragment that is still in the manifest and
+    has a deleted row is rewritten, and those rows are dropped from the index; the rows keep their keys and texts (their
+    addresses change, which the model does not see).  Rows of fragments that were deleted entirely stay in the index. -/
+def Ds.compact (ds : Ds) : Ds :=
+  match ds.idx with
+  | none => ds
+  | some ix =>
+    { ds with idx := some ⟨ix.parts.map (fun p => p.remap (fun id =>
+        !ds.rows.any (fun r => r.id == id && r.deleted && ds.liveFrag r.frag))), ix.frags⟩ }
 
 /-! ### queries -/
 
@@ -344,15 +375,18 @@ inductive Op where
   | delete (ids : List Nat)
   | index
   | optimize
+  | compact
 
 def Ds.step (ops : CharOps) (ds : Ds) : Op → Ds
   | .append frags => ds.append frags
   | .delete ids => ds.delete ids
   | .index => ds.index ops
   | .optimize => ds.optimize ops
+  | .compact => ds.compact
 
 /-- the table after a history (`create` is the first `append`) -/
-def Ds.run (ops : CharOps) (cfg : Cfg) (history : List Op) : Ds := history.foldl (Ds.step ops) (Ds.init cfg)
+def Ds.run (ops : CharOps) (cfg : Cfg) (history : List Op) (split : Bool := false) : Ds :=
+  history.foldl (Ds.step ops) (Ds.init cfg split)
 
 /-- the planner refuses a phrase query without an inverted index or without positions (`plan_phrase_query`) -/
 def queryRefused (ds : Ds) (q : Query) : Bool :=
